@@ -794,30 +794,39 @@ fn put_u32(b: &mut [u8], at: usize, v: u32, le: bool) {
 }
 
 // @check props=C07,C06 tier=quick
-// @desc FragmentNumberSet::try_read_from_bytes rejects sets it cannot represent: numBits > 256, or base + numBits - 1 > u32::MAX (formerly an out-of-bounds index / an addition overflow, repaired in /repo): Err for every base and numBits in that region, both endiannesses, no panic
-// @bounds 40 bytes: base and numBits symbolic within the rejection region, the 8 bitmap words zero; unwind 10 (the member loops are not reached)
-// @assume numBits > 256 or base + numBits - 1 > u32::MAX (the accepted region is covered by the family harnesses)
+// @desc FragmentNumberSet::try_read_from_bytes rejects sets it cannot represent (formerly an out-of-bounds index / an addition overflow, repaired in /repo): numBits 257 and 0xffffffff with any base, and numBits 3 / 256 with any base such that base + numBits - 1 > u32::MAX: Err, no panic, both endiannesses
+// @bounds 40 bytes: base symbolic, numBits from {257, 0xffffffff, 3, 256} (concrete per call: with a symbolic numBits CBMC encodes the - unreachable - member loops and runs out of memory), bitmap words zero resp. 0xe0000000; unwind 5
+// @assume base + numBits - 1 > u32::MAX in the two calls with numBits <= 256
 // @enc rtps_messages::submessage_elements::FragmentNumberSet::try_read_from_bytes
 #[kani::proof]
-#[kani::unwind(10)]
+#[kani::unwind(5)]
 fn c07_fragment_number_set_rejects_unrepresentable() {
-    let e = any_endianness();
-    let head: [u8; 8] = kani::any();
-    let mut bytes = [0u8; 40];
-    let mut i = 0;
-    while i < 8 {
-        bytes[i] = head[i];
-        i += 1;
+    let base: u32 = kani::any();
+    for (le, nb) in [(true, 257u32), (false, u32::MAX)] {
+        assert!(fns_too_wide(nb));
+        let mut bytes = [0u8; 40];
+        put_u32(&mut bytes, 0, base, le);
+        put_u32(&mut bytes, 4, nb, le);
+        let e = if le { Endianness::LittleEndian } else { Endianness::BigEndian };
+        let mut d = &bytes[..];
+        let r = FragmentNumberSet::try_read_from_bytes(&mut d, &e);
+        assert!(r.is_err(), "C07: FragmentNumberSet with numBits > 256 accepted");
+        core::mem::forget(r);
     }
-    let base = rd_u32(&bytes, 0, &e);
-    let nb = rd_u32(&bytes, 4, &e);
-    kani::assume(fns_too_wide(nb) || fns_out_of_range(base, nb));
-    let mut d = &bytes[..];
-    let r = FragmentNumberSet::try_read_from_bytes(&mut d, &e);
-    assert!(r.is_err(), "C07: FragmentNumberSet with numBits > 256 or members beyond u32::MAX accepted");
-    kani::cover!(nb == 257, "numBits = 257 is rejected");
-    kani::cover!(nb == 3 && base == u32::MAX - 1, "base = u32::MAX - 1 with numBits = 3 is rejected");
-    core::mem::forget(r);
+    for (le, nb) in [(false, 3u32), (true, 256)] {
+        let b2: u32 = kani::any();
+        kani::assume(fns_out_of_range(b2, nb));
+        let mut bytes = [0u8; 40];
+        put_u32(&mut bytes, 0, b2, le);
+        put_u32(&mut bytes, 4, nb, le);
+        put_u32(&mut bytes, 8, 0xe000_0000, le);
+        let e = if le { Endianness::LittleEndian } else { Endianness::BigEndian };
+        let mut d = &bytes[..];
+        let r = FragmentNumberSet::try_read_from_bytes(&mut d, &e);
+        assert!(r.is_err(), "C07: FragmentNumberSet with members beyond u32::MAX accepted");
+        kani::cover!(nb == 3 && b2 == u32::MAX - 1, "base = u32::MAX - 1 with numBits = 3 is rejected");
+        core::mem::forget(r);
+    }
 }
 
 /// (numBits, bitmap word pattern): control concrete, so the member Vec length stays concrete.
